@@ -311,3 +311,10 @@ def run(chk):
             elif ("C01", i.key) not in recorded:
                 chk.bad("R9", "ghost:" + i.key, i.file, i.line, i.what, i.expected, i.found)
     chk.guard("R9", r9)
+
+    def r10():
+        # into (positional tuple literal) and into_existing (`other.<n> = ..`) agree on the slot only if the counter handed to the line
+        # renderer is the emission position (C01.R12)
+        from .c01 import emit_counter_rule
+        emit_counter_rule(chk, "R10")
+    chk.guard("R10", r10)
